@@ -315,7 +315,7 @@ int main(int argc, char **argv)
     args_t a = parse_args(argc, argv);
     long idx = 0, i, j;
     install_crash_handlers();
-    gb_init(&gIN, "in", 1 << 16); gb_init(&gOUT, "out", 256); gb_init(&gKEY, "key", 4096);
+    gb_init(&gIN, "in", 1 << 16); gb_init(&gOUT, "out", 256); gb_init(&gKEY, "key", 8192);
     if (!strcmp(a.mode, "hash")) {
         long N = a.p1 > 0 ? a.p1 : 200, reps = a.p2 > 0 ? a.p2 : 1;
         for (i = 0; i <= N; ++i)
